@@ -33,6 +33,7 @@ type b44Item struct {
 	cas    int64
 	seq    int64
 	noSeq  bool   // wire only: leave `seq` out
+	emptySaltKey bool // the salt is empty but PRESENT: `4:salt0:` on the wire, a non-nil empty slice in the Go API (same item as without salt)
 	sigKey []byte // the (key, message) sig was REALLY made for; nil = made for nothing (garbage)
 	sigMsg []byte
 }
@@ -124,8 +125,15 @@ func goValue(v *bval) interface{} {
 	}
 }
 
+func (it *b44Item) goSalt() []byte {
+	if len(it.salt) == 0 && it.emptySaltKey {
+		return []byte{}
+	}
+	return append([]byte(nil), it.salt...)
+}
+
 func (it *b44Item) toItem() *bep44.Item {
-	i := &bep44.Item{V: goValue(it.v), Salt: append([]byte(nil), it.salt...), Sig: it.sig, Cas: it.cas, Seq: it.seq}
+	i := &bep44.Item{V: goValue(it.v), Salt: it.goSalt(), Sig: it.sig, Cas: it.cas, Seq: it.seq}
 	if it.k != nil {
 		i.K = *it.k
 	}
@@ -133,7 +141,7 @@ func (it *b44Item) toItem() *bep44.Item {
 }
 
 func (it *b44Item) toPut() bep44.Put {
-	p := bep44.Put{V: goValue(it.v), Salt: append([]byte(nil), it.salt...), Sig: it.sig, Cas: it.cas, Seq: it.seq}
+	p := bep44.Put{V: goValue(it.v), Salt: it.goSalt(), Sig: it.sig, Cas: it.cas, Seq: it.seq}
 	if it.k != nil {
 		k := *it.k
 		p.K = &k
@@ -368,7 +376,7 @@ func (n *b44Node) put(it *b44Item) string {
 	if it.k != nil {
 		args.set("k", bB(it.k[:]))
 	}
-	if len(it.salt) > 0 {
+	if len(it.salt) > 0 || it.emptySaltKey {
 		args.set("salt", bB(it.salt))
 	}
 	if it.sig != ([64]byte{}) {
